@@ -42,7 +42,8 @@ RULE = ("history = terminal profile (size 1-300 x 1-120, cell 1-40 px, pixels vi
 PROBES = ["env_change_between_set_and_read", "dynamic_size_followed_resize",
           "fixed_size_survived_resize", "auto_equals_original", "auto_equals_fit",
           "clamped_to_one", "relative_frame", "graphics_family", "text_family",
-          "flow_widget_rows", "dynamic_cell_ratio", "render_kept_dynamic_size"]
+          "flow_widget_rows", "dynamic_cell_ratio", "render_kept_dynamic_size",
+          "first_query_after_resize_times_out"]
 COMPONENTS = {
     "real": ["BaseImage._valid_size / set_size / size setter / _renderer",
              "BlockImage / GraphicsImage pixel<->cell conversions", "term_image.get_cell_ratio / "
@@ -97,6 +98,16 @@ def run(ch, ctx, fault=None):
     if pxmode == "none":
         profile.answers -= {"14t", "16t"}
     env = Env(w)
+    slow_next = [False]
+
+    def delay_fn(kind):
+        if slow_next[0]:
+            if kind == "da1":
+                slow_next[0] = False
+            return 250_000_000
+        return 0
+
+    tty.delay_fn = delay_fn
     key = []
     ctx.op("terminal %dx%d cell=%s pixels=%s profile=%s"
            % (cols, rows, vt.cell_px, pxmode, profile.name))
@@ -306,6 +317,14 @@ def run(ch, ctx, fault=None):
                     vt.resize(r2, c2)
                     desc = "terminal resized to %dx%d" % (c2, r2)
                     env_changes[0] += 1
+                    if pxmode == "query" and ch.bool("busy_terminal", 0.3):
+                        # the terminal is busy re-flowing: its answer to the NEXT query comes
+                        # after the timeout, later queries are answered at once.  Whatever the
+                        # library makes of that, every size it computes must be consistent
+                        # with the cell size it reports
+                        slow_next[0] = True
+                        desc += " (next query answered late)"
+                        ctx.probe("first_query_after_resize_times_out")
                 elif op == "cellpx":
                     vt.cell_px = (ch.skewed("cw2", 1, 40), ch.skewed("chh2", 1, 40))
                     if ch.bool("and_resize", 0.5):
